@@ -1,5 +1,5 @@
 #!/bin/bash
-# selftest.sh: (1) every check passes on the unchanged tree; (2) every seeded change is detected by the
+# selftest.sh [--all]: (1) every check passes on the unchanged tree; (2) every seeded change is detected by the
 # check of the property it was written against (and lists which other checks also fire).
 cd /verif
 (cd checker && GOFLAGS=-mod=mod GOPROXY=off GOSUMDB=off GOTOOLCHAIN=local go build -o /verif/bin/lispcheck .) || exit 2
@@ -16,7 +16,9 @@ for d in /verif/seeded/*/; do
   git -C /repo worktree add -q --detach $WT HEAD || exit 9
   (cd $WT && (git apply $d/patch.diff 2>/dev/null || git apply --3way $d/patch.diff 2>/dev/null)) || { echo "$s: patch does not apply"; fail=1; git -C /repo worktree remove --force $WT; continue; }
   hits=""
-  for p in $(seq -w 1 20); do
+  PROPS=$(seq -w 1 20)
+  [ "${1:-}" != "--all" ] && PROPS=${prop#C}
+  for p in $PROPS; do
     /verif/bin/lispcheck -prop C$p -repo $WT -evidence-dir "" > /tmp/selftest.log 2>&1; rc=$?
     [ $rc -eq 1 ] && hits="$hits C$p"
     [ $rc -eq 2 ] && hits="$hits C$p(undecided)"
